@@ -11,6 +11,9 @@ PROP = dict(
         "and in-range chars/bytes only",
     ],
     assumptions=[
+        "relations are modelled with their PHYSICAL column order (Bucket.rel atFirst): the builder sorts the heading (so `@` is "
+        "first unless the other name sorts before it, e.g. $a), Relation.Join puts left output before right output; the harness op "
+        "`relshape` reads the real layout by reflection and a wrong prediction shows up as drift",
         "numbers are integers (|n| small) plus the non-integers n+1/2 as call arguments and offsets; chars 97..101, bytes "
         "0..255, offsets in {-2..5}, sequences of length <= 4 (<= 12 after ++), dict/relation keys from a pool of 7 values",
         "not generated (other properties' defects in this worktree): `with`, `|` of two sequences of the same kind, "
@@ -31,7 +34,7 @@ PROP = dict(
                "programs on every run (error classes observed by type assertion, never by message).",
     design_ref="DESIGN.md section 6, C05",
     watch=["rel.SetCall", "rel.Call", "rel.String.CallAll", "rel.Bytes.CallAll", "rel.Array.CallAll", "rel.Dict.CallAll",
-           "rel.Relation.CallAll", "rel.positionalRelation.CallAll", "rel.UnionSet.CallAll", "rel.GenericSet.CallAll",
+           "rel.Relation.CallAll", "rel.positionalRelation.CallAll", "rel.Relation.getAttrIndex", "rel.Relation.Join", "rel.relationBuilder.Finish", "rel.UnionSet.CallAll", "rel.GenericSet.CallAll",
            "rel.EmptySet.CallAll", "rel.TrueSet.CallAll", "rel.SeqArrowExpr.Eval", "rel.Concatenate", "rel.OffsetExpr.Eval",
            "rel.NewOffsetArray", "rel.NewOffsetString", "rel.NewOffsetBytes", "rel.asString", "rel.asBytes", "rel.asArray",
            "rel.NewDict", "rel.SetBuilder.Finish", "rel.SafeTailExpr.Eval", "syntax.ParseContext.compileSafeTails",
